@@ -458,3 +458,37 @@ class NPInt(PyNative):
 
     def __str__(self):
         return str(self.v)
+
+
+class NPFloat32(PyNative):
+    """A NumPy single-precision scalar: its value is the float32 nearest to the number it was made from; str() prints the shortest decimal
+    that identifies it *among float32 values* ('0.7'), which read back as a double is another number (0.7 != 0.699999988079071)."""
+
+    def __init__(self, v):
+        import struct
+
+        self.v = struct.unpack("f", struct.pack("f", float(v)))[0]
+
+    def __float__(self):
+        return self.v
+
+    def __eq__(self, o):
+        return float(o) == self.v if isinstance(o, (int, float, NPFloat32)) else NotImplemented
+
+    def __hash__(self):
+        return hash(self.v)
+
+    def __str__(self):
+        import struct
+
+        for d in range(1, 10):
+            s = f"{self.v:.{d}g}"
+            if struct.unpack("f", struct.pack("f", float(s)))[0] == self.v:
+                return s if any(c in s for c in ".en") else s + ".0"
+        return repr(self.v)
+
+    def __repr__(self):
+        return f"np.float32({self})"
+
+    def __format__(self, spec):
+        return format(self.v, spec)
